@@ -120,6 +120,46 @@ def check_lifetime_sweep(ctx, cfg):
     ctx.floor(rule, "reference-manufacturing functions with a reference result (%s)" % cfg, n, 4)
 
 
+def check_length_relating_impls(ctx, cfg):
+    """C12.E: an impl of a comparison trait that relates two GenericArray types - however wrapped: references, Box, nested - relates arrays of
+    the SAME length: the length arguments of every GenericArray in the Self type and in the trait's type arguments are one and the same type term.
+    (An impl with an independent second length makes `a == b` type-check for arrays of different lengths.) Universal over the crate's impls."""
+    rule = "C12.E"
+    db = ctx.db(cfg)
+    n = 0
+
+    def gas(t, out, depth=0):
+        if not isinstance(t, dict) or depth > 8:
+            return
+        if is_ga(t):
+            out.append(t)
+        for x in (t.get("args") or []):
+            if isinstance(x, dict) and x.get("k") != "region":
+                gas(x, out, depth + 1)
+        if isinstance(t.get("t"), dict):
+            gas(t["t"], out, depth + 1)
+        for x in (t.get("ts") or []):
+            gas(x, out, depth + 1)
+    for imp in db.impls:
+        tr = imp.get("trait")
+        if tr not in ("core::cmp::PartialEq", "core::cmp::PartialOrd", "core::cmp::Eq", "core::cmp::Ord"):
+            continue
+        left, right = [], []
+        gas(imp["self"], left)
+        for x in imp.get("trait_args", [])[1:]:
+            gas(x, right)
+        if not left or not right:
+            continue   # one side has no static length (a slice, a Vec): nothing to tie
+        outer_l = tstr(adt_args(left[0])[1])
+        outer_r = tstr(adt_args(right[0])[1])
+        ok = outer_l == outer_r
+        ctx.ob(rule, db.impl_key(imp), ok, "%s for %s with %s: outermost array lengths `%s` and `%s` are the same term: %s" % (
+            tr.split("::")[-1], imp["self_s"], ", ".join(tstr(x) for x in imp.get("trait_args", [])[1:]), outer_l, outer_r, ok), at=imp["at"], cfg=cfg, frozen=False)
+        n += 1
+    ctx.ob(rule, "sweep (%s)" % cfg, n >= 1, "comparison impls relating two GenericArray types: %d" % n, cfg=cfg)
+    return n
+
+
 def check_corpus(ctx):
     rule = "C12.W"
     twins = build_corpus(ctx.tier)
@@ -168,4 +208,5 @@ def check(ctx):
         check_copy_clone(ctx, cfg)
         check_sealed(ctx, cfg)
         check_lifetime_sweep(ctx, cfg)
+        check_length_relating_impls(ctx, cfg)
     check_corpus(ctx)
